@@ -8,7 +8,7 @@ RULES = {
  'C02': ('every (format, field, write path) x {4 backgrounds x FV(width) u overflow probes} u {one-bit flips over the touched quadlets +-1 quadlet x small value set incl. values wider than the field}; whole object (16 canary bytes, header, 32 trailing bytes) diffed against ref_set, then read back through both readers; generic writer over 6240 descriptor shapes',
          {'priors': 'BG u H1 over touched quadlets +- one quadlet', 'values': 'FV(w) u {2^w, 2^w+1, ~mask, 2^63, 2^64-1, one-hot x64}', 'shapes': 6240}),
  'C03': ('every format x every identifier 0..MAX-1 via GetField/SetField, every dedicated accessor, initialisers (current, legacy), legacy get/set, payload accessor x values {0, all ones} x prior {00, FF} x 2 placements of a buffer of exactly the published header length between PROT_NONE pages; plus sizeof/offsetof/HEADER_LEN facts against the wire length',
-         {'placements': 2, 'buffer': 'exactly *_HEADER_LEN bytes'}),
+         {'placements': 2, 'buffer': 'exactly *_HEADER_LEN bytes', 'instrumented': 'TSan-ABI hooks on every load/store of the library (-O0 and -O2), header at 8 address residues, every accessor/initialiser'}),
  'C04': ('every initialiser (current and legacy, avtp_cvf_pdu_init x 256 subtype arguments) x prior contents {00,FF,A5,5A,incrementing, one-bit flips over header and 16 trailing bytes x 4 backgrounds}; header == canonical bytes, surroundings untouched, init;init == init',
          {'priors': 'BG u incrementing u H1(header+16 trailing bytes)'}),
  'C05': ('DFS over ALL operation sequences up to depth D per format from 2 initial states (zeroed, all-ones): alphabet = {Init, legacy init} u {set(field, value, path) : every field, 4 values, by-id/dedicated/legacy}; after every step whole-object diff against the model record and every field read through every read path; two-buffer products with per-buffer models; talker traces (all fields in order/reverse/every rotation)',
@@ -23,16 +23,16 @@ RULES = {
 
 ASSUME = ['spec/layouts.json is a correct transcription of IEEE 1722-2016 / acf-vss.md (hand-checked, see DESIGN appendix A)',
           'values outside the stated lattices are not executed',
-          'three worlds: gcc -O2 (full lattice), gcc -O0 (the project\'s default build) and gcc -O3 -DNDEBUG (CMake Release), the latter two with the reduced lattice; other worlds are the subject of C14/C15']
+          'four worlds: gcc -O2 (full lattice), gcc -O0 (the project\'s default build), gcc -O3 -DNDEBUG (CMake Release) and clang -O2, the latter three with the reduced lattice; other worlds are the subject of C14/C15']
 
 
-def build(prop, opt='-O2', fresh=True, defs=()):
+def build(prop, opt='-O2', fresh=True, defs=(), cc='gcc'):
     b = core.fresh_dir(os.path.join(core.ROOT, 'build', prop)) if fresh else os.path.join(core.ROOT, 'build', prop)
     g = os.path.join(b, 'gen')
     rep = core.run_gen(g)
-    wobjs = core.build_world(os.path.join(b, 'world' + opt), g, cflags=(opt, '-g'), world_srcs=['wrap_generic.c'], defines=defs)
+    wobjs = core.build_world(os.path.join(b, 'world' + opt + ('' if cc == 'gcc' else '-' + cc)), g, cc=cc, cflags=(opt, '-g'), world_srcs=['wrap_generic.c'], defines=defs)
     nobjs = core.build_native(os.path.join(b, 'native'), g, ['common.c', 'explore_fields.c'])
-    exe = core.link(os.path.join(b, 'explore_fields' + opt), nobjs + wobjs)
+    exe = core.link(os.path.join(b, 'explore_fields' + opt + ('' if cc == 'gcc' else cc)), nobjs + wobjs)
     return exe, rep
 
 
@@ -63,6 +63,30 @@ def run(prop, tier):
     # and as a CMake Release build compiles it (-O3 -DNDEBUG: assert() bodies vanish)
     exe3, _ = build(prop, '-O3', fresh=False, defs=('-DNDEBUG',))
     res = core.run_slices(exe3, ['--suite', prop, '--tier', 'lite' if tier == 'quick' else 'quick'], timeout=timeout, result=res, tag='-O3 -DNDEBUG')
+    # and by the other compiler (argument evaluation order, different folding of attributes)
+    exec_, _ = build(prop, '-O2', fresh=False, cc='clang')
+    res = core.run_slices(exec_, ['--suite', prop, '--tier', 'lite' if tier == 'quick' else 'quick'], timeout=timeout, result=res, tag='clang -O2')
+    if prop == 'C03':
+        # guard pages only watch headers that end at a page boundary; the instrumented build (every load/store of the
+        # library hooked, see C16) checks each access against the header extent at every address residue mod 8
+        from . import c16
+        for opt in ('-O0', '-O2'):
+            xe = c16.build(os.path.join(core.ROOT, 'build', prop, 'instr'), opt)
+            p = subprocess.run([xe, '--extent'], stdout=subprocess.PIPE, stderr=subprocess.PIPE, text=True)
+            if p.returncode != 0 or not res.parse(p.stdout, 'instrumented' + opt):
+                core.die_infra('instrumented extent pass failed: ' + p.stderr[-500:])
+    if prop == 'C03':
+        # the same compile-time facts in a C++ translation unit (one per header: sizeof/offsetof must not depend on the language)
+        import json as _json
+        spec = _json.load(open(os.path.join(core.ROOT, 'spec', 'layouts.json')))
+        for fm in spec['formats']:
+            tu = '#include <cstddef>\n#include "%s"\nstatic_assert(sizeof(%s) == %d, "sizeof");\nstatic_assert(offsetof(%s, payload) == %d, "offsetof payload");\nint vt_c03;\n' % (fm['header'], fm['type'], fm['len'], fm['type'], fm['len'])
+            p = subprocess.run(['g++', '-std=gnu++11', '-x', 'c++', '-fsyntax-only', '-w', '-Wno-invalid-offsetof', '-I' + os.path.join(core.REPO, 'include'), '-'], input=tu, stdout=subprocess.PIPE, stderr=subprocess.PIPE, text=True)
+            res.counters['cases'] = res.counters.get('cases', 0) + 1
+            res.counters['transitions'] = res.counters.get('transitions', 0) + 1
+            if p.returncode != 0:
+                what = 'sizeof' if '"sizeof"' in p.stderr or 'sizeof' in p.stderr.split('static assertion failed')[-1][:40] else 'offsetof-payload'
+                res.viol[('C03', '%s:%s differs in a C++ translation unit' % (fm['name'], what))] = {'count': 1, 'case': 'C03:1:%d:0:0:0:0:0' % spec['formats'].index(fm), 'detail': (p.stderr.strip().splitlines() or ['?'])[0][:300], 'tag': 'c++'}
     rule, bounds = RULES[prop]
     unc = [u for u in rep['uncovered'] if u not in core.HANDWRAPPED]
     core.finish(prop, tier, t0, res, rule=rule, bounds=bounds, assumptions=ASSUME,
